@@ -241,7 +241,8 @@ std::vector<TraceLine> readTrace(const std::string &path)
 }
 
 // child: fresh sink on `dir`, one armed write + flush; returns exit status (77 = crashed at the point)
-int runChild(const Cfg &cfg, const std::string &dir, const QString &text, int crashAt, int failAt, int failErrno, const std::string &tracePath, int stickyErrno = 0)
+int runChild(const Cfg &cfg, const std::string &dir, const QString &text, int crashAt, int failAt, int failErrno, const std::string &tracePath, int stickyErrno = 0,
+             const QString &afterText = QString())
 {
     fflush(nullptr);
     pid_t pid = fork();
@@ -259,6 +260,12 @@ int runChild(const Cfg &cfg, const std::string &dir, const QString &text, int cr
         sink->send(m);
         sink->flush();
         verif_shim_disarm();
+        if (stickyErrno) verif_shim_sticky(0);
+        if (!afterText.isNull()) { // the fault is over; the same sink keeps logging
+            LogMessage m2(QtInfoMsg, ctx, afterText);
+            sink->send(m2);
+            sink->flush();
+        }
         delete sink;
         _exit(0);
     }
@@ -316,6 +323,7 @@ std::string run(const QJsonObject &c)
     for (auto &kv : before.where) required.push_back(kv.first);
     if (!before.invalidGz.empty()) { verif_clock_enable(false); return "prefix left an invalid gzip: " + before.invalidGz[0]; }
     const QString triggerText = recText(widx++, c["triggerLen"].toInt());
+    const QString afterText = recText(widx++, 9); // written by the same sink once the injected failure is over (failure variants only)
     const int tailStartIdx = widx;
 
     // ---- learn K ----
@@ -354,11 +362,12 @@ std::string run(const QJsonObject &c)
         for (int e : { EACCES, EROFS, ENOSPC }) variants.push_back({ -1, -1, e, e });
 
     std::string failure;
-    long children = 1, insideRotation = 0, stickyRuns = 0;
+    long children = 1, insideRotation = 0, stickyRuns = 0, duringChecked = 0;
     auto runVariant = [&](const Variant &v) -> std::string {
         copyDir(tmpl, work);
         const bool wantTrace = c["deep"].toBool() && v.failAt > 0 && v.crashAt < 0;
-        int st = runChild(cfg, work, triggerText, v.crashAt, v.failAt, v.err, wantTrace ? tracePath : std::string(), v.sticky);
+        const bool survives = v.crashAt < 0; // a failing call, not a crash: the write returns and the sink goes on
+        int st = runChild(cfg, work, triggerText, v.crashAt, v.failAt, v.err, wantTrace ? tracePath : std::string(), v.sticky, survives ? afterText : QString());
         children++;
         if (v.sticky) stickyRuns++;
         const std::string label = v.sticky ? "every rename/link/unlink/create of the rotating write failing with errno " + std::to_string(v.sticky) + " (directory not writable)" : ((v.crashAt > 0 ? "crash before call #" + std::to_string(v.crashAt) : std::string())
@@ -373,6 +382,29 @@ std::string run(const QJsonObject &c)
         DirState s1 = inspect(work, cfg);
         std::string d = checkRequired(s1, cfg, required, (label + ", right after").c_str());
         if (!d.empty()) return d;
+        // A failing rename / link / unlink / creation of the compressed file does not stop the sink: the record whose write ran into the
+        // failure and the next one (both flushed by a sink that reported nothing) must be in a file. Exempt: the failing call was the
+        // (re)creation of the log file itself - then there is no file to write to.
+        std::vector<std::string> during;
+        if (survives) {
+            bool activeCreateFailed = false;
+            if (v.failAt > 0) {
+                const TraceLine &t = trace[size_t(v.failAt - 1)];
+                activeCreateFailed = t.call == "open-create" && t.path.size() >= cfg.name.size()
+                        && t.path.compare(t.path.size() - cfg.name.size(), cfg.name.size(), cfg.name) == 0
+                        && (t.path.size() == cfg.name.size() || t.path[t.path.size() - cfg.name.size() - 1] == '/');
+            }
+            if (!activeCreateFailed) {
+                during = { triggerText.toStdString(), afterText.toStdString() };
+                duringChecked++;
+                for (auto &line : during)
+                    if (!s1.where.count(line) && !retentionExplains(s1, cfg, line)) {
+                        std::string files;
+                        for (auto &kv : s1.contentByName) files += " " + kv.first + "(" + std::to_string(kv.second.size()) + ")";
+                        return label + ": record '" + line + "', written and flushed by the sink " + (line == during[0] ? "while" : "right after") + " the rotation failed, is in no intact file although the log file could be written; directory:" + files;
+                    }
+            }
+        }
         // stage 2: a sink started afterwards continues
         long long t2 = now + 50;
         verif_clock_set(t2);
@@ -396,6 +428,9 @@ std::string run(const QJsonObject &c)
         DirState s2 = inspect(work, cfg);
         d = checkRequired(s2, cfg, required, (label + ", after a restart and " + std::to_string(tailLines.size()) + " more records").c_str());
         if (!d.empty()) return d;
+        for (auto &line : during)
+            if (!s2.where.count(line) && !retentionExplains(s2, cfg, line))
+                return label + ": record '" + line + "', written by the sink whose rotation failed, disappeared after a restart and " + std::to_string(tailLines.size()) + " more records";
         for (auto &tl : tailLines)
             if (!s2.where.count(tl) && !retentionExplains(s2, cfg, tl))
                 return label + ": record '" + tl + "' written after the restart is in no intact file (logging does not continue)";
@@ -449,6 +484,7 @@ std::string run(const QJsonObject &c)
     count("failure_injections", long(failVariants.size()));
     count("deep_fail_plus_crash_runs", deepChildren);
     count("whole_operation_failure_runs", stickyRuns);
+    count("failure_runs_in_which_the_records_written_during_and_after_the_failure_were_checked", duringChecked);
     cls("name_too_long_for_rotation", cfg.name.size() > 200);
     count("points_strictly_inside_rotation", insideRotation);
     cls("trigger_rotates", rotated);
